@@ -31,7 +31,10 @@ def init_worker(ctx):
 
 
 def strategy(ctx):
-    return gen_ir.interface("json", min_params=0, max_params=8, suffix=False, returns=True, min_literal=1)
+    return st.one_of(
+        gen_ir.interface("json", min_params=0, max_params=8, suffix=False, returns=True, min_literal=1),
+        gen_ir.interface("json", min_params=0, max_params=8, suffix=False, returns=True, min_literal=1, doc=gen_ir.mixed_descr, name_strategy=gen_ir.rich_names),
+    )
 
 
 def negatives(members):
